@@ -26,6 +26,7 @@ type Op struct {
 	Schema   []byte
 	Inst     []byte
 	Carrier  string // float64 | json.Number
+	OptSet   string // "" | swagger | object-array-type | array-must-have-items | skip-schemata (schema ops only)
 	Def      *model.SimpleDef
 	Val      any
 	Doc      []byte
@@ -131,6 +132,36 @@ func Gen(r *lib.Rand, n int, base int, o Options) []*Op {
 			case 4:
 				op.Carrier = "json.Number"
 			}
+			if r.P(0.3) {
+				// the same call under one of the option sets the specification validator uses piecewise
+				op.OptSet = r.Pick("swagger", "object-array-type", "array-must-have-items", "skip-schemata")
+				if op.OptSet != "skip-schemata" && r.P(0.6) {
+					// a schema-shaped instance under a cut-down meta schema: object validators sit at paths ending in
+					// properties / default / example / items, where the Swagger-specific pre-checks look at the path
+					g2 := &gen.SchemaGen{R: r, O: gen.SchemaOpts{MaxDepth: 3, SpecialNames: true, Defaults: true}}
+					shaped := g2.Document()
+					if r.P(0.5) {
+						g2.Degenerate(shaped, false)
+					}
+					node := "#/definitions/s" + tag
+					doc = map[string]any{"type": "object", "properties": map[string]any{tag: map[string]any{"$ref": node}},
+						"definitions": map[string]any{"s" + tag: map[string]any{"type": "object", "properties": map[string]any{
+							"properties":           map[string]any{"type": "object", "additionalProperties": map[string]any{"$ref": node}},
+							"patternProperties":    map[string]any{"type": "object", "additionalProperties": map[string]any{"$ref": node}},
+							"definitions":          map[string]any{"type": "object", "additionalProperties": map[string]any{"$ref": node}},
+							"items":                map[string]any{"$ref": node},
+							"additionalProperties": map[string]any{"$ref": node},
+							"not":                  map[string]any{"$ref": node},
+							"default":              map[string]any{"type": []any{"object", "array", "string", "number", "boolean", "null"}, "properties": map[string]any{"items": map[string]any{}}},
+							"example":              map[string]any{"type": "object", "additionalProperties": map[string]any{}},
+							"allOf":                map[string]any{"type": "array", "items": map[string]any{"$ref": node}},
+							"anyOf":                map[string]any{"type": "array", "items": map[string]any{"$ref": node}},
+						}}}}
+					wrapped = map[string]any{tag: shaped}
+					op.Early = ""
+					op.Carrier = "float64"
+				}
+			}
 			op.Schema, op.Inst = gen.JSON(doc), gen.JSON(wrapped)
 		case 2, 3:
 			op.Kind = "param"
@@ -220,6 +251,21 @@ func keysOf(m map[string]any) []string {
 	return out
 }
 
+// options are the validation options of a schema op.
+func (op *Op) options() []validate.Option {
+	switch op.OptSet {
+	case "swagger":
+		return []validate.Option{validate.SwaggerSchema(true)}
+	case "object-array-type":
+		return []validate.Option{validate.EnableObjectArrayTypeCheck(true)}
+	case "array-must-have-items":
+		return []validate.Option{validate.EnableArrayMustHaveItemsCheck(true)}
+	case "skip-schemata":
+		return []validate.Option{validate.WithSkipSchemataResult(true)}
+	}
+	return nil
+}
+
 func (op *Op) value() (any, error) {
 	if op.Carrier == "json.Number" {
 		d := json.NewDecoder(bytes.NewReader(op.Inst))
@@ -244,13 +290,14 @@ func (op *Op) Run(recycling bool) sut.Outcome {
 			if err != nil {
 				return sut.Outcome{Panic: "harness: instance does not decode"}
 			}
+			opts := op.options()
 			switch {
 			case !recycling:
-				return sut.FromResult(validate.NewSchemaValidator(s, nil, "", op.Formats).Validate(v))
+				return sut.FromResult(validate.NewSchemaValidator(s, nil, "", op.Formats, opts...).Validate(v))
 			case op.Kind == "against":
-				return sut.FromError(validate.AgainstSchema(s, v, op.Formats))
+				return sut.FromError(validate.AgainstSchema(s, v, op.Formats, opts...))
 			default:
-				return sut.FromResult(validate.NewSchemaValidator(s, nil, "", op.Formats, validate.WithRecycleValidators(true)).Validate(v))
+				return sut.FromResult(validate.NewSchemaValidator(s, nil, "", op.Formats, append(opts, validate.WithRecycleValidators(true))...).Validate(v))
 			}
 		})
 	case "param", "header":
@@ -281,6 +328,9 @@ func (op *Op) Render() map[string]any {
 	switch op.Kind {
 	case "against", "schema-recycled":
 		m["schema"], m["instance"], m["carrier"] = string(op.Schema), string(op.Inst), op.Carrier
+		if op.OptSet != "" {
+			m["options"] = op.OptSet
+		}
 	case "param", "header":
 		m["definition"], m["value"] = fmt.Sprintf("%+v", *op.Def), fmt.Sprintf("%T(%#v)", op.Val, op.Val)
 		if op.Def.Items != nil {
